@@ -4,7 +4,7 @@
 // terminal_is_recognised).  One instantiation per format because the hook structs are private.
 
 use super::*;
-use crate::verif_common::{instr_round_trip, instr_size_field, terminal_is_recognised, Stored, SizeField};
+use crate::verif_common::{label_round_trip, instr_round_trip, instr_size_field, terminal_is_recognised, Stored, SizeField};
 
 macro_rules! c03 {
     ($name:ident, $unwind:literal, $body:expr) => {
@@ -26,6 +26,9 @@ c03!(c03_ecl10_rt_n0, 8, instr_round_trip::<0>(&ModernEclHooks, Stored { param_m
 c03!(c03_ecl10_rt_n12, 15, instr_round_trip::<12>(&ModernEclHooks, Stored { param_mask: true, difficulty: true, extra_arg: false, pop_and_arg_count: true, maybe_terminal: false, ignore_param_mask: false }, |_| true));
 //@ C03 c03_ecl10_size_field quick default ECL (TH10+): for every blob length 0..=70000 either the writer rejects the instruction or the stored size field equals the true size (as the reader interprets it) and the written length is instr_size
 c03!(c03_ecl10_size_field, 4, instr_size_field(&ModernEclHooks, Stored { param_mask: true, difficulty: true, extra_arg: false, pop_and_arg_count: true, maybe_terminal: false, ignore_param_mask: false }, SizeField { offset: 6, width: 2, counts_header: true, reader_max: 65535 }, 70000));
+
+//@ C03 c03_label_ecl10 quick default ECL TH10+ label encoding (signed relative offset): round trip for every pair of offsets below 2^31
+c03!(c03_label_ecl10, 2, label_round_trip(&ModernEclHooks, 1));
 
 #[cfg(kani)]
 #[path = "/verif/.cache/playback/ecl_10.rs"]
